@@ -72,16 +72,16 @@ def repo_hash():
             h.update(f.encode())
             with open(f, "rb") as fh:
                 h.update(fh.read())
-    # the harness and extractor are part of the key too
-    for sub in ("harness", "extract"):
-        for f in _files(os.path.join(VERIF, sub)):
-            if "/gen/" in f or f.endswith((".o", ".cmx", ".cmi")):
-                continue
-            h.update(f.encode())
-            with open(f, "rb") as fh:
-                h.update(fh.read())
     _hash_cache["h"] = h.hexdigest()[:16]
     return _hash_cache["h"]
+
+
+def extractor_hash():
+    h = hashlib.sha256()
+    for f in _files(os.path.join(VERIF, "extract")):
+        if f.endswith(".py"):
+            h.update(open(f, "rb").read())
+    return h.hexdigest()[:8]
 
 
 def build_dir():
@@ -165,7 +165,9 @@ def build_driver(name, variant="plain", with_lib=True, extra=(), srcs=None, defi
     objs = build_lib(variant) if with_lib else []
     with Lock("drv-%s-%s" % (name, variant)):
         srcs = srcs or [os.path.join(HARNESS, name + ".cxx")]
-        newest = max(os.path.getmtime(s) for s in srcs)
+        deps = list(srcs) + [f for f in _files(HARNESS) if f.endswith((".h", ".inc", ".def"))] + \
+            _files(os.path.join(build_dir(), "gen"))
+        newest = max(os.path.getmtime(s) for s in deps)
         if os.path.exists(exe) and os.path.getmtime(exe) >= newest:
             return exe
         t0 = time.time()
@@ -300,12 +302,12 @@ def coq_make_nolock(targets, timeout=1500):
 # evidence / findings / violations
 # --------------------------------------------------------------------------
 def load_known_findings():
-    p = os.path.join(VERIF, "known_findings.jsonl")
+    p = os.path.join(VERIF, "known_findings.txt")
     out = []
     if os.path.exists(p):
         for l in open(p):
             l = l.strip()
-            if l and not l.startswith("#"):
+            if l.startswith("{"):
                 out.append(json.loads(l))
     return out
 
@@ -447,3 +449,26 @@ def run_cases(exe, lines, args=(), env=None, timeout=7200, max_crashes=8):
 
 SAN_ENV = dict(os.environ, ASAN_OPTIONS="detect_leaks=0:abort_on_error=0:allocator_may_return_null=1",
                UBSAN_OPTIONS="print_stacktrace=1:halt_on_error=1")
+
+
+def build_gen_driver():
+    """Extract the model applied to the generated tables (coq/gen) and build its driver."""
+    ok, out = coq_make_nolock(["ExtractGen.vo"])
+    ml = os.path.join(COQ, "extracted", "genmodel.ml")
+    if not ok or not os.path.exists(ml):
+        raise BuildError("gen extraction failed:\n" + out[-4000:])
+    with Lock("ocaml-gen"):
+        d = os.path.join(build_dir(), "ocaml-gen")
+        os.makedirs(d, exist_ok=True)
+        exe = os.path.join(d, "gen_driver")
+        drv = os.path.join(HARNESS, "gen_driver.ml")
+        if os.path.exists(exe) and os.path.getmtime(exe) >= max(os.path.getmtime(ml), os.path.getmtime(drv)):
+            return exe
+        for f in ("genmodel.ml", "genmodel.mli"):
+            shutil.copy(os.path.join(COQ, "extracted", f), d)
+        shutil.copy(drv, d)
+        p = run(["ocamlfind", "ocamlopt", "-w", "-a", "genmodel.mli", "genmodel.ml", "gen_driver.ml", "-o", exe],
+                cwd=d, timeout=600)
+        if p.returncode != 0:
+            raise BuildError("ocaml gen build failed:\n" + p.stderr[-4000:])
+        return exe
